@@ -143,6 +143,7 @@ pub fn gen(m: Mode, tier: &str, seed: u64, idx: u64, base: u64) -> Spec {
             // limits are chosen at exec time from Ref's measurements; the draw is fixed here
             params.insert("knob_draw".into(), (rng.next() >> 2) as i64);
             params.insert("reduced".into(), if rng.coin(70) { 1 } else { 0 });
+            params.insert("size_margin".into(), 0);
             let slots = vec![SlotCfg::slg(), SlotCfg::rec(), SlotCfg::rec_nocache()];
             let mut ops = vec![];
             for g in 0..ng {
@@ -284,11 +285,15 @@ pub fn exec(m: Mode, spec: &Spec, r: &mut RunResult) {
                     continue;
                 }
                 let (_, rf) = crate::reference::eval_closed(&prog, g, 60_000);
-                max_size = max_size.max(rf.max_size);
+                let mut syn = vec![];
+                g.preds(&mut syn);
+                let syn_max = syn.iter().map(|p| p.ty.size().max(p.args.iter().map(|a| a.size()).max().unwrap_or(0))).max().unwrap_or(0);
+                max_size = max_size.max(rf.max_size).max(syn_max);
                 max_depth = max_depth.max(rf.max_depth);
             }
+            let margin = *spec.params.get("size_margin").unwrap_or(&1) as usize;
             let mut kr = Rng::new(*spec.params.get("knob_draw").unwrap_or(&1) as u64);
-            let lo_size = max_size + 2;
+            let lo_size = max_size + margin;
             let lo_depth = 3 * max_depth + 12;
             for c in slot_cfgs.iter_mut() {
                 match c {
@@ -312,6 +317,7 @@ pub fn exec(m: Mode, spec: &Spec, r: &mut RunResult) {
             }
         }
         let tainted = wgen::co_tainted(&prog);
+        let size_margin = *spec.params.get("size_margin").unwrap_or(&1) as usize;
         let db = mk_db(&l, &spec.db);
         let mut slots = make_slots(&slot_cfgs);
         let mut memo = FreshMemo::new();
@@ -402,7 +408,12 @@ pub fn exec(m: Mode, spec: &Spec, r: &mut RunResult) {
             let mut gp = vec![];
             ast.preds(&mut gp);
             let co_reach = gp.iter().any(|p| tainted.contains(&p.tr));
-            let sig_facts = format!("{}{}", if co_reach { "+co-reach" } else { "" }, if facts.closure_cycle { "+implied-bound-cycle" } else { "" });
+            let _ = co_reach;
+            // static tags of (world, goal): +overlap, +co-reach, +implied-bound-cycle (same vocabulary in every check)
+            let mut sig_facts = static_tags(&spec.world, op.goal);
+            if facts.closure_cycle && !sig_facts.contains("+implied-bound-cycle") {
+                sig_facts.push_str("+implied-bound-cycle");
+            }
             let where_ = format!("op #{} {} {:?} on `{}` answered `{}`", oi, cfg.name(), op.kind, spec.world.goals[op.goal], fmt_sol(&sol));
             match verdict {
                 Verdict::Undecided(why) => r.bump(&format!("ref.undecided.{}", why), 1),
@@ -417,21 +428,23 @@ pub fn exec(m: Mode, spec: &Spec, r: &mut RunResult) {
                     if interrupted {
                         r.bump("ref.ambiguous_closed_but_interrupted", 1);
                     } else if m != Mode::C01 {
-                        // limit-reached exclusion for C02: does the default configuration decide it?
+                        // limit-reached exclusion, decided by the REFERENCE model's measurement of the derivation (largest
+                        // type, deepest stack), not by chalk's own size accounting (which is part of what is under test):
+                        // the answer is excluded only if the slot's limits are below what Ref needed for this goal
+                        let (knob_size, knob_depth) = match &cfg {
+                            SlotCfg::Slg { max_size } => (*max_size, usize::MAX),
+                            SlotCfg::Rec { max_size, overflow_depth, .. } => (*max_size, *overflow_depth),
+                        };
+                        let mut syn = vec![];
+                        ast.preds(&mut syn);
+                        let syn_max = syn.iter().map(|p| p.ty.size().max(p.args.iter().map(|a| a.size()).max().unwrap_or(0))).max().unwrap_or(0);
+                        let within = knob_size >= facts.max_size.max(syn_max) + size_margin && knob_depth >= 3 * facts.max_depth + 12;
                         let mut excluded = false;
-                        if m == Mode::C02 && truncated {
-                            // the size limit fired during this very operation (hook probe): limit reached
+                        if !within {
                             excluded = true;
-                            r.bump("excluded.limit_reached_truncation_probe", 1);
-                        }
-                        if !excluded && m == Mode::C02 && reduced {
-                            let dflt = memo.get(&l, &spec.slots[op.slot], op.goal, &OpKind::Solve, spec.budget).0.clone();
-                            if let Out::Ans(d) = &dflt {
-                                if d.as_ref().map(|s| !s.is_ambig()).unwrap_or(true) {
-                                    excluded = true;
-                                    r.bump("excluded.limit_reached_reduced_knobs", 1);
-                                }
-                            }
+                            r.bump("excluded.limit_below_reference_bound", 1);
+                        } else if truncated {
+                            r.bump("ref.ambiguous_closed_with_size_probe_fired_within_reference_bound", 1);
                         }
                         if !excluded {
                             let sig = format!("{}:ambiguous-closed{}", cfg.kind(), sig_facts);
